@@ -23,6 +23,7 @@ import Driver.GlueChk
 import Driver.CliArgsChk
 import Driver.CacheChk
 import Driver.LtsEngineChk
+import Driver.LtsCChk
 import Driver.BinRelChk
 import Driver.BddSimChk
 import Driver.OrdVecChk
@@ -730,6 +731,7 @@ def dispatch (kind : String) (args res : List String) : Except String (Findings 
   | "mth" => MtHist.check false args res
   | "parse" => ParseChk.check args res
   | "parse2" => ParseChk.check2 args res
+  | "ltsc" => utilKind "ExplicitLTS container" (LtsCChk.check args res)
   | "ownalpha" => checkOwnAlpha args res
   | "meta" => MetaChk.check args res
   | "bddincl" => BddChk.checkIncl args res
